@@ -312,7 +312,8 @@ def rule_bm_table(ctx):
             elif kst or lst:
                 paired = bool(kst) and bool(lst)
                 p_ge = w.P.prove_le0(c - v, e.facts)
-                eq = (new == v - c)
+                eq = (new == v - c) or bool(w.P.prove_le0(new - (v - c), e.facts) and w.P.prove_le0((v - c) - new, e.facts)) \
+                    or (new == c - v and bool(w.P.prove_le0(v - c, e.facts)) and bool(p_ge))
                 okk = paired and p_ge and eq
                 why = []
                 if not paired:
@@ -326,7 +327,9 @@ def rule_bm_table(ctx):
                                          fact_strs(e), e))
             else:
                 p_le = w.P.prove_le0(v - c, e.facts)
-                eq = (new == c - v)
+                # (equal as linear forms, or provably equal under this path's facts: `v - c` where the path knows c == v)
+                eq = (new == c - v) or bool(w.P.prove_le0(new - (c - v), e.facts) and w.P.prove_le0((c - v) - new, e.facts)) \
+                    or (new == v - c and bool(w.P.prove_le0(c - v, e.facts)) and bool(p_le))
                 okk = p_le and eq
                 cases["decrement"].append((bool(okk), "O3: decrement only when v <= c, count == c - v, key kept" if okk else
                                            ("guard does not entail added amount <= old count" if not p_le else "new count %s is not c - v" % show_lin(new)),
